@@ -60,6 +60,11 @@ type vfRun struct {
 	denied    map[string]bool
 	trigger   map[string]bool // a revocation trigger reached the gateway after the last access answer
 	disc      bool
+	// held: resources handed to the client so far (by a response or an
+	// event's resource set); checkHandover asserts that no event precedes
+	// the message that first hands its resource over
+	held          map[string]bool
+	checkHandover bool
 }
 
 func vfNewRun(w *vfWorld, cl *vfClient) *vfRun {
@@ -139,7 +144,26 @@ func (r *vfRun) observe() []vfFrame {
 	return out
 }
 
+func (r *vfRun) hand(raw json.RawMessage) {
+	if r.held == nil {
+		r.held = map[string]bool{}
+	}
+	m, c, e := vfResourceSet(raw)
+	for rid := range m {
+		r.held[rid] = true
+	}
+	for rid := range c {
+		r.held[rid] = true
+	}
+	for rid := range e {
+		r.held[rid] = true
+	}
+}
+
 func (r *vfRun) onResponse(it *vfIssued, fr vfFrame) {
+	if it.ok {
+		r.hand(fr.Result)
+	}
 	switch it.kind.verb {
 	case "subscribe":
 		if it.ok {
@@ -203,6 +227,15 @@ func (r *vfRun) onEvent(fr vfFrame) {
 	rid, name := fr.Event[:i], fr.Event[i+1:]
 	if name == "unsubscribe" {
 		r.count[rid] = 0
+	} else if r.checkHandover {
+		zzvf.Reach("handover-checked")
+		if !r.held[rid] {
+			zzvf.Note("event " + fr.Event + " precedes the message handing " + rid + " over")
+		}
+		zzvf.Assert(r.held[rid], "no-event-before-the-resource-is-handed-over")
+	}
+	if name == "change" || name == "add" {
+		r.hand(fr.Data)
 	}
 }
 
